@@ -264,6 +264,16 @@ func (c12) Run(c *core.Case, env *core.Env) {
 			}
 		}
 		env.Return(h, out, err)
+		if err == nil && !st.removedObjs[id] {
+			// a call that makes the object tell its subscribers something: a
+			// well-typed write of the property (generic action 6)
+			var b ref.Buf
+			b.ValStr("level")
+			b.ValI32(int32(4000 + i))
+			h := env.Invoke(400, "probe-write", fmt.Sprintf("service %d object %d", w.ServiceID, id))
+			_, err := pcl.Call(nil, w.ServiceID, id, 6, b.Bytes())
+			env.Return(h, "", err)
+		}
 	}
 	h = env.Invoke(400, "probe-directory", "services()")
 	resp, err := pcl.Call(nil, st.dirID, 1, 101, nil)
@@ -678,6 +688,13 @@ func (c12) Check(c *core.Case, env *core.Env, res zzsim.Result, v *core.Verdict)
 			}
 			if h.OK && !strings.Contains(h.Out, ":p|o") {
 				bad("probe-wrong-reply", "probe call returned %q", h.Out)
+			}
+		}
+		if h.Kind == "probe-write" && !h.OK {
+			var id uint32
+			fmt.Sscanf(h.Arg, "service %d object %d", new(uint32), &id)
+			if !st.removedObjs[id] {
+				bad("live-object-refuses-a-write", "object %d was not removed but a fresh client's well-typed write of its property failed: %s", id, h.Err)
 			}
 		}
 		if h.Kind == "probe-directory" && !h.OK {
